@@ -10,7 +10,7 @@ from ..selftest import Mutant
 
 ID = "C21"
 TECHNIQUE = "guarded dominance on the CFG (K2), 3-row relation table by abstract interpretation (K8), who-may-call for the tip write (K4) (ast)"
-FLOOR = 14
+FLOOR = 17
 BR = "breezy/branch.py"
 BB = "breezy/bzr/branch.py"
 EXPLANATION = """
